@@ -409,7 +409,12 @@ func (v V) Inspect() string {
 	case Int:
 		return strconv.FormatInt(v.I, 10)
 	case Float:
-		return strconv.FormatFloat(v.F, 'f', -1, 64)
+		s := strconv.FormatFloat(v.F, 'f', -1, 64)
+		// an integral float inside the integer range keeps a ".0" (it would read back as an integer otherwise)
+		if v.F > -9223372036854775808.0 && v.F < 9223372036854775808.0 && !strings.Contains(s, ".") {
+			s += ".0"
+		}
+		return s
 	case Bool:
 		return strconv.FormatBool(v.B)
 	case Nil:
